@@ -32,6 +32,10 @@ pub trait Hooks {
 
     /// Sends a push request.
     fn push_send(&self, request: reqwest::RequestBuilder) -> PushSendFuture;
+
+    /// An instrumented lock (identified by where it was created) is about to be acquired
+    /// (`acquire`) or has been released. Lets a harness build the lock-order graph.
+    fn lock_event(&self, _lock: &'static std::panic::Location<'static>, _exclusive: bool, _acquire: bool) {}
 }
 
 thread_local! {
@@ -130,49 +134,61 @@ pub mod sync {
     use super::LOCKS_HELD;
     use std::ops::{Deref, DerefMut};
 
-    fn acquire(site: &'static str) {
+    use std::panic::Location;
+
+    type Site = &'static Location<'static>;
+
+    fn acquire(site: &'static str, lock: Site, exclusive: bool) {
         super::point(site);
+        if let Some(h) = super::hooks() {
+            h.lock_event(lock, exclusive, true);
+        }
         let _ = LOCKS_HELD.try_with(|c| c.set(c.get() + 1));
     }
 
-    fn release() {
+    fn release(lock: Site, exclusive: bool) {
         let _ = LOCKS_HELD.try_with(|c| c.set(c.get().saturating_sub(1)));
+        if let Some(h) = super::hooks() {
+            h.lock_event(lock, exclusive, false);
+        }
     }
 
     /// See `parking_lot::RwLock`.
-    pub struct RwLock<T>(parking_lot::RwLock<T>);
+    pub struct RwLock<T>(parking_lot::RwLock<T>, Site);
 
     /// See `parking_lot::Mutex`.
-    pub struct Mutex<T>(parking_lot::Mutex<T>);
+    pub struct Mutex<T>(parking_lot::Mutex<T>, Site);
 
-    pub struct ReadGuard<'a, T>(parking_lot::RwLockReadGuard<'a, T>);
-    pub struct WriteGuard<'a, T>(parking_lot::RwLockWriteGuard<'a, T>);
-    pub struct MutexGuard<'a, T>(parking_lot::MutexGuard<'a, T>);
+    pub struct ReadGuard<'a, T>(parking_lot::RwLockReadGuard<'a, T>, Site);
+    pub struct WriteGuard<'a, T>(parking_lot::RwLockWriteGuard<'a, T>, Site);
+    pub struct MutexGuard<'a, T>(parking_lot::MutexGuard<'a, T>, Site);
 
     impl<T> RwLock<T> {
+        #[track_caller]
         pub fn new(value: T) -> Self {
-            Self(parking_lot::RwLock::new(value))
+            Self(parking_lot::RwLock::new(value), Location::caller())
         }
 
         pub fn read(&self) -> ReadGuard<'_, T> {
-            acquire("lock.read");
-            ReadGuard(self.0.read())
+            acquire("lock.read", self.1, false);
+            ReadGuard(self.0.read(), self.1)
         }
 
         pub fn write(&self) -> WriteGuard<'_, T> {
-            acquire("lock.write");
-            WriteGuard(self.0.write())
+            acquire("lock.write", self.1, true);
+            WriteGuard(self.0.write(), self.1)
         }
     }
 
     impl<T> Mutex<T> {
+        #[track_caller]
         pub fn new(value: T) -> Self {
-            Self(parking_lot::Mutex::new(value))
+            Self(parking_lot::Mutex::new(value), Location::caller())
         }
 
         pub fn lock(&self) -> MutexGuard<'_, T> {
-            acquire("lock.mutex");
-            MutexGuard(self.0.lock())
+            acquire("lock.mutex", self.1, true);
+            MutexGuard(self.0.lock(), self.1)
         }
     }
 
@@ -211,19 +227,19 @@ pub mod sync {
 
     impl<T> Drop for ReadGuard<'_, T> {
         fn drop(&mut self) {
-            release();
+            release(self.1, false);
         }
     }
 
     impl<T> Drop for WriteGuard<'_, T> {
         fn drop(&mut self) {
-            release();
+            release(self.1, true);
         }
     }
 
     impl<T> Drop for MutexGuard<'_, T> {
         fn drop(&mut self) {
-            release();
+            release(self.1, true);
         }
     }
 }
